@@ -165,7 +165,7 @@ func validKind(k string) bool {
 // names are made legal and unique per directory, ranges are clipped.
 func expand(s Spec, isRoot bool, depth int) *tnode {
 	n := &tnode{kind: s.Kind, perm: s.Perm & 0o7777, uid: s.UID, gid: s.GID, mtime: s.MTime}
-	if !validKind(n.kind) || (isRoot && n.kind != "dir") {
+	if !validKind(n.kind) || (isRoot && (n.kind == "fifo" || n.kind == "sock")) {
 		n.kind = "dir"
 		if !isRoot {
 			n.kind = "reg"
